@@ -5,8 +5,8 @@ package zzinv
 import (
 	"errors"
 
-	sdkerrors "github.com/cosmos/cosmos-sdk/types/errors"
 	sdk "github.com/cosmos/cosmos-sdk/types"
+	sdkerrors "github.com/cosmos/cosmos-sdk/types/errors"
 
 	basketapi "github.com/regen-network/regen-ledger/api/v2/regen/ecocredit/basket/v1"
 	marketapi "github.com/regen-network/regen-ledger/api/v2/regen/ecocredit/marketplace/v1"
@@ -222,7 +222,6 @@ func BalanceBefore(a, b *basketapi.BasketBalance) bool {
 	sameTime := zz.And(as == bs, an == bn)
 	return zz.Or(as < bs, zz.Or(zz.And(as == bs, an < bn), zz.And(sameTime, zz.StrLess(a.BatchDenom, b.BatchDenom))))
 }
-
 
 // IsFeeError: the failure is one of the three ways a creation fee makes a message fail
 // (insufficient offer, insufficient funds, coins rejected by the bank module).
